@@ -82,9 +82,7 @@ func (sc scen) scenario() *sched.Scenario {
 					o.ctl.VerifC14Tick()
 				case "force":
 					before := o.ctl.State()
-					o.force++
 					if err := o.ctl.ForceFailover("operator"); err != nil {
-						o.force--
 						x.Obs("%s:force=refused", who)
 						return
 					}
